@@ -23,7 +23,7 @@ PROVED = ['the log-linear interpolation behind every inserted node reproduces bo
           'reproduction by interpolation through the lookup over the WHOLE output (C12_reproduces_lower_point): whenever the grading starts at the limit (X > 0) and the lower given '
           'point of the first remaining segment lies above the limit, get_dx at its fraction returns exactly its diameter although it is not a node - every node up to the upper end of '
           'that segment lies on the segment\'s log-line (invariant carried through start node, subdivision loop, segment loop, sorted() and the extrapolated top node: Lemmas/FracsLine), '
-          'and the lookup over a sorted table whose nodes up to a key lie on one line returns that line (Lemmas/FracsLookup)']
+          'and the lookup over a sorted table whose nodes up to a key lie on one line returns that line (Lemmas/FracsLookup); corollary for the slurry object (C12_slurry_D15_reproduced): D15 above the limit with the grading starting at the limit => get_dx(0.15) = D15']
 HYPOTHESES = []
 MONITORED = ['reproduction of the lowest given point when the grading does NOT start at the limit (X <= 0: no start node is stored; with no interpolated node on the first segment the point is lost - the listed finding) and, as a cross-check of the proved ones on doubles, ordering / range / start node - decided by the oracle on the implementation for every generated grading; '
              'floating-point rounding of 10**log10']
@@ -51,6 +51,21 @@ def gen_case(rng):
         # coarse and broad: the property bounds D50 by 0.25 Dp and each ratio by 6, not D85 by the pipe - D85 (and the node extrapolated above it) may exceed Dp
         p['D50'] = p['Dp'] * rng.uniform(0.1, 0.25)
         p['r85'] = rng.choice([rng.uniform(3.0, 6.0), 6.0, 5.0, 4.0])
+    elif r < 0.6:
+        # a given point (D15 or D50) within a few ulp / 1e-13 / 1e-11 of the limit, above or below: the start fraction X then lies within rounding of that
+        # point's own fraction
+        off = rng.choice([1, 2, 3, 8, -1, -2, 'rel13', 'rel11', 'rel9'])
+        base_ = dl
+        if isinstance(off, int):
+            for _ in range(abs(off)):
+                base_ = math.nextafter(base_, 1.0 if off > 0 else 0.0)
+        else:
+            base_ = dl * (1 + {'rel13': 1e-13, 'rel11': 1e-11, 'rel9': 1e-9}[off])
+        if rng.random() < 0.6:
+            p['r15'] = rng.choice([1.2, 1.5, 2.0, 3.0])
+            p['D50'] = base_ * p['r15']          # D15 = D50 / r15 lands on (or an ulp beside) base_
+        else:
+            p['D50'] = base_
     pts = {0.15: p['D50'] / p['r15'], 0.5: p['D50'], 0.85: p['D50'] * p['r85']}
     kind = '3pt'
     r = rng.random()
@@ -269,6 +284,19 @@ def monitor(ctx, extended=False):
                         if bad:
                             ctx.violation('second Slurry object: ' + bad, inp2, key='gsd')
                         check_lookup(ctx, s2, pts, dl2, inp2)
+                        # ... and a THIRD object with other ratios is graded; then the first one is made to regenerate (its pipe assigned again): it keeps ITS ratios
+                        p3 = dict(p, r15=ctx.rng.choice([1.3, 4.0]), r85=min(ctx.rng.choice([1.3, 4.0]), 0.5 * p['Dp'] / p['D50']))
+                        if p3['r85'] > 1.02:
+                            s1 = E.make_slurry(p)
+                            s1.get_dx(0.3)
+                            E.make_slurry(p3).GSD
+                            s1.Dp = p['Dp']
+                            s1.fluid = p['fluid']
+                            inp1 = dict(inp, history='another slurry object with other ratios was graded, then this one regenerated its grading (pipe / fluid assigned again)')
+                            bad, clause = check_gsd(s1.GSD, pts, dl)
+                            if bad:
+                                ctx.violation('first Slurry object after another was graded: ' + bad, inp1, key='gsd')
+                            check_lookup(ctx, s1, pts, dl, inp1)
                 elif r_ < 0.5:
                     # the same object reached along other routes: the two ratios given in two separate calls (as the viewer's D15 and D85 boxes do), the solids
                     # density / pipe / fluid assigned (again) after the grading was given
